@@ -113,7 +113,11 @@ func (w *World) fieldHoldsCancelFunc(st types.Type, field int) bool {
 						continue
 					}
 					found++
-					ex, isEx := s.Val.(*ssa.Extract)
+					sv := s.Val
+					if ct, isCT := sv.(*ssa.ChangeType); isCT {
+						sv = ct.X // context.CancelFunc converted to func()
+					}
+					ex, isEx := sv.(*ssa.Extract)
 					if !isEx || ex.Index != 1 {
 						ok = false
 						continue
